@@ -71,8 +71,12 @@ pub enum MemberSpec {
 	/// as a zero-sized tuple field next to a lock can
 	EmptyOwnedAt(usize),
 	/// reference to by-value member `pos` of earlier collection `coll`
-	/// (reached through child(); the collection must be Boxed/Retry/Ref over a Vec<OMem>)
+	/// (reached through child(); the collection must be Boxed/Retry/Ref over a
+	/// Vec<OMem>, or a by-reference collection whose member `pos` is `Own`)
 	Inner(usize, usize),
+	/// a lock stored BY VALUE among the references (mixed ownership: in an array
+	/// or tuple container it lives inside the collection's own allocation)
+	Own(LeafDecl),
 }
 
 #[derive(Clone, Debug, PartialEq, Eq, Hash, Serialize, Deserialize)]
@@ -253,7 +257,19 @@ impl Sem {
 								let sub = sem.inner_flats[*j][*k].clone();
 								flat.extend_with(&sub, &cw);
 							}
+							MemberSpec::Own(d) => {
+								let mut f = Flat::default();
+								sem.flat_omember(&OMemberSpec::Leaf(d.clone()), &[], u32::MAX, &mut next_group, &format!("C{ci}/{mi}"), &mut f);
+								flat.extend_with(&f, &cw);
+								while inner.len() < mi {
+									inner.push(Flat::default());
+								}
+								inner.push(f);
+							}
 						}
+					}
+					while inner.len() < ms.len() {
+						inner.push(Flat::default());
 					}
 					sem.own_units.push(flat.units.clone());
 				}
@@ -389,6 +405,14 @@ impl Sem {
 			&& c.ctor != Ctor::NewRef
 	}
 
+	/// Can member `k` of collection `c` be referenced from outside (child())?
+	pub fn inner_member_accessible(c: &CollSpec, k: usize) -> bool {
+		match &c.content {
+			Content::ByVal(ms) => Sem::inner_accessible(c) && k < ms.len(),
+			Content::ByRef(ms) => !c.pois && matches!(ms.get(k), Some(MemberSpec::Own(_))),
+		}
+	}
+
 	pub fn valid(spec: &WorldSpec) -> Result<(), String> {
 		for (i, l) in spec.leaves.iter().enumerate() {
 			if l.wraps > 2 {
@@ -449,13 +473,13 @@ impl Sem {
 							}
 						}
 						MemberSpec::Inner(j, k) => {
-							if *j >= ci || !Sem::inner_accessible(&spec.colls[*j]) {
-								return Err(format!("coll {ci}: inner of coll {j} not accessible"));
+							if *j >= ci || !Sem::inner_member_accessible(&spec.colls[*j], *k) {
+								return Err(format!("coll {ci}: inner {k} of coll {j} not accessible"));
 							}
-							if let Content::ByVal(ms) = &spec.colls[*j].content {
-								if *k >= ms.len() {
-									return Err(format!("coll {ci}: inner index"));
-								}
+						}
+						MemberSpec::Own(d) => {
+							if d.wraps > 2 {
+								return Err(format!("coll {ci}: too many wrappers"));
 							}
 						}
 					}
@@ -581,6 +605,47 @@ tuple_from_vec!(E, E, E, E, E);
 tuple_from_vec!(E, E, E, E, E, E);
 tuple_from_vec!(E, E, E, E, E, E, E);
 
+/// the elements of a container, by reference
+pub trait Elems<E> {
+	fn elems(&self) -> Vec<&E>;
+}
+impl<E> Elems<E> for Vec<E> {
+	fn elems(&self) -> Vec<&E> {
+		self.iter().collect()
+	}
+}
+impl<E> Elems<E> for Box<[E]> {
+	fn elems(&self) -> Vec<&E> {
+		self.iter().collect()
+	}
+}
+impl<E, const N: usize> Elems<E> for [E; N] {
+	fn elems(&self) -> Vec<&E> {
+		self.iter().collect()
+	}
+}
+macro_rules! tuple_elems {
+	($($e:ident $i:tt),*) => {
+		impl<E> Elems<E> for ($($e,)*) {
+			fn elems(&self) -> Vec<&E> {
+				vec![$(&self.$i),*]
+			}
+		}
+	};
+}
+tuple_elems!(E 0);
+tuple_elems!(E 0, E 1);
+tuple_elems!(E 0, E 1, E 2);
+tuple_elems!(E 0, E 1, E 2, E 3);
+tuple_elems!(E 0, E 1, E 2, E 3, E 4);
+tuple_elems!(E 0, E 1, E 2, E 3, E 4, E 5);
+tuple_elems!(E 0, E 1, E 2, E 3, E 4, E 5, E 6);
+
+/// the by-value locks among the members of a by-reference container
+fn own_members<C: Elems<Mem>>(c: &'static C) -> Vec<Option<&'static OMem>> {
+	c.elems().into_iter().map(|m| if let Mem::V(o) = m { Some(o) } else { None }).collect()
+}
+
 // ---------------------------------------------------------------------------
 // built world
 
@@ -701,6 +766,9 @@ pub struct BuiltColl {
 	pub target: Option<&'static dyn DynTarget>,
 	pub nest: Option<NestHandle>,
 	pub status: BuildStatus,
+	/// per member: the lock stored by value there (`MemberSpec::Own`), reached
+	/// through child()
+	pub own: Vec<Option<&'static OMem>>,
 }
 
 pub struct World {
@@ -819,9 +887,9 @@ fn put_t<T: DynTarget + 'static>(arena: &mut Arena, v: T) -> &'static dyn DynTar
 	arena.put(v)
 }
 
-fn build_byref_generic<C>(kind: KindTag, v: Vec<Mem>, arena: &mut Arena) -> Option<&'static dyn DynTarget>
+fn build_byref_generic<C>(kind: KindTag, v: Vec<Mem>, arena: &mut Arena, own: &mut Vec<Option<&'static OMem>>) -> Option<&'static dyn DynTarget>
 where
-	C: FromVec<Mem> + Lockable + Sharable + Sync + Send + Debug + 'static,
+	C: FromVec<Mem> + Elems<Mem> + Lockable + Sharable + Sync + Send + Debug + 'static,
 	<C as Lockable>::Guard<'static>: Leaves + Debug,
 	<C as Sharable>::ReadGuard<'static>: Leaves + Debug,
 	<C as Lockable>::DataMut<'static>: Leaves,
@@ -829,11 +897,24 @@ where
 {
 	let c = C::from_vec(v);
 	match kind {
-		KindTag::Boxed => Boxed::try_new(c).map(|b| put_t(arena, b)),
-		KindTag::Retry => Retry::try_new(c).map(|b| put_t(arena, b)),
+		KindTag::Boxed => Boxed::try_new(c).map(|b| {
+			let r: &'static Boxed<C> = arena.put(b);
+			*own = own_members(r.child());
+			r as &'static dyn DynTarget
+		}),
+		KindTag::Retry => Retry::try_new(c).map(|b| {
+			let r: &'static Retry<C> = arena.put(b);
+			*own = own_members(r.child());
+			r as &'static dyn DynTarget
+		}),
 		KindTag::Ref => {
 			let c: &'static C = arena.put(c);
-			RefC::try_new(c).map(|b| put_t(arena, b))
+			*own = own_members(c);
+			let t = RefC::try_new(c).map(|b| put_t(arena, b));
+			if t.is_none() {
+				own.clear();
+			}
+			t
 		}
 		KindTag::Owned => unreachable!(),
 	}
@@ -874,7 +955,13 @@ where
 }
 
 /// Build one by-reference member list into a `Vec<Mem>`.
-fn build_members(ms: &[MemberSpec], leaves: &[LeafRef], colls: &[BuiltColl]) -> Option<Vec<Mem>> {
+fn build_members(ms: &[MemberSpec], leaves: &[LeafRef], colls: &[BuiltColl], next: &mut Lid, mut key: Option<&mut ThreadKey>) -> Option<Vec<Mem>> {
+	// the reference semantics numbers the by-value locks of every collection,
+	// built or not: keep in step with it on every way out
+	let start = *next;
+	let n_own = ms.iter().filter(|m| matches!(m, MemberSpec::Own(_))).count() as Lid;
+	*next = start + n_own;
+	let mut own_next = start;
 	let mut v = Vec::with_capacity(ms.len());
 	for m in ms {
 		v.push(match m {
@@ -895,7 +982,16 @@ fn build_members(ms: &[MemberSpec], leaves: &[LeafRef], colls: &[BuiltColl]) -> 
 				Mem::OwnedZ(unsafe { &*(addr as *const Owned<[OMem; 0]>) })
 			}
 			MemberSpec::Coll(j) => colls[*j].nest.as_ref()?.mem(),
-			MemberSpec::Inner(j, k) => Mem::O(&colls[*j].nest.as_ref()?.inner()?[*k]),
+			MemberSpec::Inner(j, k) => match colls[*j].own.get(*k).copied().flatten() {
+				Some(o) => Mem::O(o),
+				None => Mem::O(colls[*j].nest.as_ref()?.inner()?.get(*k)?),
+			},
+			MemberSpec::Own(d) => {
+				let k = key.as_deref_mut()?;
+				let id = own_next;
+				own_next += 1;
+				Mem::V(new_omem_leaf(d, id, k))
+			}
 		});
 	}
 	Some(v)
@@ -949,8 +1045,8 @@ impl World {
 		let mut colls: Vec<BuiltColl> = Vec::new();
 		for c in &spec.colls {
 			let built = match &c.content {
-				Content::ByRef(ms) => match build_members(ms, &leaves, &colls) {
-					None => BuiltColl { target: None, nest: None, status: BuildStatus::Skipped },
+				Content::ByRef(ms) => match build_members(ms, &leaves, &colls, &mut next, Some(&mut key)) {
+					None => BuiltColl { target: None, nest: None, status: BuildStatus::Skipped, own: Vec::new() },
 					Some(v) => {
 						let n = v.len();
 						if c.cont == Cont::Vec {
@@ -959,39 +1055,39 @@ impl World {
 								(KindTag::Boxed, false) => match Boxed::try_new(v) {
 									Some(b) => {
 										let r = arena.put(b);
-										BuiltColl { target: Some(r), nest: Some(NestHandle::BoxedV(r)), status: BuildStatus::Built }
+										BuiltColl { target: Some(r), nest: Some(NestHandle::BoxedV(r)), status: BuildStatus::Built, own: own_members(r.child()) }
 									}
-									None => BuiltColl { target: None, nest: None, status: BuildStatus::Rejected },
+									None => BuiltColl { target: None, nest: None, status: BuildStatus::Rejected, own: Vec::new() },
 								},
 								(KindTag::Boxed, true) => match Boxed::try_new(v) {
 									Some(b) => {
 										let r = arena.put(Poisonable::new(b));
-										BuiltColl { target: Some(r), nest: Some(NestHandle::PBoxedV(r)), status: BuildStatus::Built }
+										BuiltColl { target: Some(r), nest: Some(NestHandle::PBoxedV(r)), status: BuildStatus::Built, own: Vec::new() }
 									}
-									None => BuiltColl { target: None, nest: None, status: BuildStatus::Rejected },
+									None => BuiltColl { target: None, nest: None, status: BuildStatus::Rejected, own: Vec::new() },
 								},
 								(KindTag::Retry, false) => match Retry::try_new(v) {
 									Some(b) => {
 										let r = arena.put(b);
-										BuiltColl { target: Some(r), nest: Some(NestHandle::RetryV(r)), status: BuildStatus::Built }
+										BuiltColl { target: Some(r), nest: Some(NestHandle::RetryV(r)), status: BuildStatus::Built, own: own_members(r.child()) }
 									}
-									None => BuiltColl { target: None, nest: None, status: BuildStatus::Rejected },
+									None => BuiltColl { target: None, nest: None, status: BuildStatus::Rejected, own: Vec::new() },
 								},
 								(KindTag::Retry, true) => match Retry::try_new(v) {
 									Some(b) => {
 										let r = arena.put(Poisonable::new(b));
-										BuiltColl { target: Some(r), nest: Some(NestHandle::PRetryV(r)), status: BuildStatus::Built }
+										BuiltColl { target: Some(r), nest: Some(NestHandle::PRetryV(r)), status: BuildStatus::Built, own: Vec::new() }
 									}
-									None => BuiltColl { target: None, nest: None, status: BuildStatus::Rejected },
+									None => BuiltColl { target: None, nest: None, status: BuildStatus::Rejected, own: Vec::new() },
 								},
 								(KindTag::Ref, false) => {
 									let cv: &'static Vec<Mem> = arena.put(v);
 									match RefC::try_new(cv) {
 										Some(b) => {
 											let r = arena.put(b);
-											BuiltColl { target: Some(r), nest: Some(NestHandle::RefV(r)), status: BuildStatus::Built }
+											BuiltColl { target: Some(r), nest: Some(NestHandle::RefV(r)), status: BuildStatus::Built, own: own_members(cv) }
 										}
-										None => BuiltColl { target: None, nest: None, status: BuildStatus::Rejected },
+										None => BuiltColl { target: None, nest: None, status: BuildStatus::Rejected, own: Vec::new() },
 									}
 								}
 								(KindTag::Ref, true) => {
@@ -999,16 +1095,17 @@ impl World {
 									match RefC::try_new(cv) {
 										Some(b) => {
 											let r = arena.put(Poisonable::new(b));
-											BuiltColl { target: Some(r), nest: None, status: BuildStatus::Built }
+											BuiltColl { target: Some(r), nest: None, status: BuildStatus::Built, own: Vec::new() }
 										}
-										None => BuiltColl { target: None, nest: None, status: BuildStatus::Rejected },
+										None => BuiltColl { target: None, nest: None, status: BuildStatus::Rejected, own: Vec::new() },
 									}
 								}
 								(KindTag::Owned, _) => unreachable!("validated"),
 							}
 						} else {
-							let t = dispatch_cont!(c.cont, n, Mem, build_byref_generic, c.kind, v, &mut arena);
-							BuiltColl { target: t, nest: None, status: if t.is_some() { BuildStatus::Built } else { BuildStatus::Rejected } }
+							let mut own = Vec::new();
+							let t = dispatch_cont!(c.cont, n, Mem, build_byref_generic, c.kind, v, &mut arena, &mut own);
+							BuiltColl { target: t, nest: None, status: if t.is_some() { BuildStatus::Built } else { BuildStatus::Rejected }, own }
 						}
 					}
 				},
@@ -1019,63 +1116,63 @@ impl World {
 						match (c.kind, c.ctor, c.pois) {
 							(KindTag::Owned, _, false) => {
 								let r = arena.put(Owned::new(v));
-								BuiltColl { target: Some(r), nest: Some(NestHandle::OwnedO(r)), status: BuildStatus::Built }
+								BuiltColl { target: Some(r), nest: Some(NestHandle::OwnedO(r)), status: BuildStatus::Built, own: Vec::new() }
 							}
 							(KindTag::Owned, _, true) => {
 								let r = arena.put(Poisonable::new(Owned::new(v)));
-								BuiltColl { target: Some(r), nest: Some(NestHandle::POwnedO(r)), status: BuildStatus::Built }
+								BuiltColl { target: Some(r), nest: Some(NestHandle::POwnedO(r)), status: BuildStatus::Built, own: Vec::new() }
 							}
 							(KindTag::Boxed, Ctor::New, _) => {
 								let r = arena.put(Boxed::new(v));
-								BuiltColl { target: Some(r), nest: Some(NestHandle::BoxedO(r)), status: BuildStatus::Built }
+								BuiltColl { target: Some(r), nest: Some(NestHandle::BoxedO(r)), status: BuildStatus::Built, own: Vec::new() }
 							}
 							(KindTag::Boxed, Ctor::TryNew, _) => match Boxed::try_new(v) {
 								Some(b) => {
 									let r = arena.put(b);
-									BuiltColl { target: Some(r), nest: Some(NestHandle::BoxedO(r)), status: BuildStatus::Built }
+									BuiltColl { target: Some(r), nest: Some(NestHandle::BoxedO(r)), status: BuildStatus::Built, own: Vec::new() }
 								}
-								None => BuiltColl { target: None, nest: None, status: BuildStatus::Rejected },
+								None => BuiltColl { target: None, nest: None, status: BuildStatus::Rejected, own: Vec::new() },
 							},
 							(KindTag::Retry, Ctor::New, _) => {
 								let r = arena.put(Retry::new(v));
-								BuiltColl { target: Some(r), nest: Some(NestHandle::RetryO(r)), status: BuildStatus::Built }
+								BuiltColl { target: Some(r), nest: Some(NestHandle::RetryO(r)), status: BuildStatus::Built, own: Vec::new() }
 							}
 							(KindTag::Retry, Ctor::TryNew, _) => match Retry::try_new(v) {
 								Some(b) => {
 									let r = arena.put(b);
-									BuiltColl { target: Some(r), nest: Some(NestHandle::RetryO(r)), status: BuildStatus::Built }
+									BuiltColl { target: Some(r), nest: Some(NestHandle::RetryO(r)), status: BuildStatus::Built, own: Vec::new() }
 								}
-								None => BuiltColl { target: None, nest: None, status: BuildStatus::Rejected },
+								None => BuiltColl { target: None, nest: None, status: BuildStatus::Rejected, own: Vec::new() },
 							},
 							(KindTag::Ref, Ctor::TryNew, _) => {
 								let cv: &'static Vec<OMem> = arena.put(v);
 								match RefC::try_new(cv) {
 									Some(b) => {
 										let r = arena.put(b);
-										BuiltColl { target: Some(r), nest: Some(NestHandle::RefO(r)), status: BuildStatus::Built }
+										BuiltColl { target: Some(r), nest: Some(NestHandle::RefO(r)), status: BuildStatus::Built, own: Vec::new() }
 									}
-									None => BuiltColl { target: None, nest: None, status: BuildStatus::Rejected },
+									None => BuiltColl { target: None, nest: None, status: BuildStatus::Rejected, own: Vec::new() },
 								}
 							}
 							(KindTag::Ref, _, _) => {
 								let cv: &'static Vec<OMem> = arena.put(v);
 								let r = arena.put(RefC::new(cv));
-								BuiltColl { target: Some(r), nest: Some(NestHandle::RefO(r)), status: BuildStatus::Built }
+								BuiltColl { target: Some(r), nest: Some(NestHandle::RefO(r)), status: BuildStatus::Built, own: Vec::new() }
 							}
 							(KindTag::Boxed, Ctor::NewRef, _) => {
 								let cv: &'static Vec<OMem> = arena.put(v);
 								let r = arena.put(Boxed::new_ref(cv));
-								BuiltColl { target: Some(r), nest: None, status: BuildStatus::Built }
+								BuiltColl { target: Some(r), nest: None, status: BuildStatus::Built, own: Vec::new() }
 							}
 							(KindTag::Retry, Ctor::NewRef, _) => {
 								let cv: &'static Vec<OMem> = arena.put(v);
 								let r = arena.put(Retry::new_ref(cv));
-								BuiltColl { target: Some(r), nest: None, status: BuildStatus::Built }
+								BuiltColl { target: Some(r), nest: None, status: BuildStatus::Built, own: Vec::new() }
 							}
 						}
 					} else {
 						let t = dispatch_cont!(c.cont, n, OMem, build_byval_generic, c.kind, c.ctor, v, &mut arena);
-						BuiltColl { target: t, nest: None, status: if t.is_some() { BuildStatus::Built } else { BuildStatus::Rejected } }
+						BuiltColl { target: t, nest: None, status: if t.is_some() { BuildStatus::Built } else { BuildStatus::Rejected }, own: Vec::new() }
 					}
 				}
 			};
@@ -1087,5 +1184,6 @@ impl World {
 }
 
 pub fn build_members_pub(ms: &[MemberSpec], world: &World) -> Option<Vec<Mem>> {
-	build_members(ms, &world.leaves, &world.colls)
+	let mut next: Lid = 0;
+	build_members(ms, &world.leaves, &world.colls, &mut next, None)
 }
